@@ -1,0 +1,46 @@
+//go:build verif
+
+package keeper
+
+// Contracts for the deductive checker in /verif (comment-only; compiled only with -tags verif).
+
+/*@
+func GasToRefund
+    requires quotient: refundQuotient != 0
+    ensures value: result == imin(gasConsumed / refundQuotient, availableRefund)
+
+// C07: a fee is only returned (the tx only passes) if its fee cap covers the base fee, and the fee is exactly
+// gasLimit x effective gas price in the given (EVM) denomination.
+func VerifyFee
+    let b = ite(baseFee != nil, *baseFee, 0)
+    let effFee = txd_effprice(txData, b) * txd_gas(txData)
+    requires nonnil: txData != nil
+    requires wf: txd_wf(txData) && (txd_dynamic(txData) ==> baseFee != nil)
+    ensures feecap: result.1 == nil ==> baseFee == nil || txd_feecap(txData) >= *baseFee
+    ensures fee: result.1 == nil ==> result.0 == cone(denom, effFee)
+    ensures intrinsic: result.1 == nil && isCheckTx ==> txd_gas(txData) >= intrinsic_gas(txd_data(txData), txd_accesslist(txData), txd_to(txData) == nil, homestead, istanbul)
+    ensures rejected: result.1 != nil ==> result.0 == coins_zero()
+
+// C07: the refund moves exactly leftoverGas x gasPrice (in `denom`) from the fee collector to the sender;
+// nothing moves when that amount is zero or the call fails; a negative amount is an error.
+func (*Keeper).RefundGas
+    let amt = leftoverGas * *msg_gasprice(msg)
+    let collector = acc_of_module("fee_collector")
+    let sender = acc_of_bytes(addr_bytes(msg_from(msg)))
+    requires nonnil: k != nil && msg != nil && msg_gasprice(msg) != nil && k.bankKeeper != nil
+    modifies bank_bal
+    ensures negative: amt < 0 ==> result != nil
+    ensures zero: amt == 0 ==> result == nil && bank_bal == old(bank_bal)
+    ensures moved: amt > 0 && result == nil ==> bank_bal == bal_move(old(bank_bal), collector, sender, cone(denom, amt))
+    ensures failed: result != nil ==> bank_bal == old(bank_bal)
+
+// Layer 4 (gas tail of ApplyMessageWithConfig) could not be put under contract (see REPORT.md). What is proved here is only
+// the arithmetic core of the statement: the charged gas max(trunc(gasLimit x minGasMultiplier), consumed - refund)
+// lies in [0, gasLimit] whenever 0 <= minGasMultiplier <= 1 and leftover/refund are within range.
+lemma GasUsedBound(gasLimit int, leftover int, refund int, m int)
+    requires 0 <= leftover && leftover <= gasLimit && 0 <= refund && refund <= gasLimit - leftover
+    requires 0 <= m && m <= dec_one()
+    ensures dec_mul(dec_of(gasLimit), m) == gasLimit * m
+    ensures imax(dec_trunc(dec_mul(dec_of(gasLimit), m)), gasLimit - leftover - refund) <= gasLimit
+    ensures imax(dec_trunc(dec_mul(dec_of(gasLimit), m)), gasLimit - leftover - refund) >= 0
+@*/
